@@ -24,6 +24,29 @@ func runC19(p *Prog, r *Report) {
 	c19Ranges(p, r)
 	c19Symmetry(p, r)
 	c19Inheritance(p, r)
+	c19QueueLengths(p, r)
+	{
+		q := NewQ(p, r)
+		R := "C19.7/refused-device-has-no-effect"
+		r.Describe(R, "Device(): a call that returns an error (ErrClosed, ErrBadProto, ErrNotRaw, option error) has started no forwarder: every validation precedes the first go statement")
+		dv := q.Fn(R, "", "", "Device")
+		if dv.OK() {
+			reach := blockReach(dv.fn)
+			bad := ""
+			nret := 0
+			for _, g := range dv.Ev("go", "") {
+				for _, rt := range dv.Ev("return", "") {
+					if len(rt.Args) == 1 && rt.Args[0] != "nil" {
+						nret++
+						if CanPrecede(reach, g.In, rt.In) {
+							bad = "the forwarder started at " + p.InstrPos(g.In) + " can be followed by the error return at " + p.InstrPos(rt.In)
+						}
+					}
+				}
+			}
+			r.Check(bad == "" && nret > 0, R, "Device", dv.Pos(), "no go statement can precede an error return", "Device fails with an error after it has already started forwarding ("+bad+"): the refused call keeps moving traffic between the sockets")
+		}
+	}
 	c19Unsupported(p, r)
 	// zero duration = no limit: timers armed from an option duration are guarded by > 0
 	r.Describe("C19.7/zero-means-no-limit", "a timer armed from an option duration whose zero value is documented as 'no limit' is guarded by > 0 (deadline selects: C18.1; survey time: C07.7; retry time: C04.3)")
